@@ -32,6 +32,21 @@ pub struct NoNI;
 
 use core::marker::PhantomData;
 
+/// Verification hook: process-global backend override consulted by the `std` arms of the dispatch macros.
+#[cfg(cryptocorrosion_verif)]
+pub mod verif {
+    use core::sync::atomic::{AtomicU8, Ordering};
+    static FORCED: AtomicU8 = AtomicU8::new(0);
+    /// 0 = no override, 1 = SSE2, 2 = SSSE3, 3 = SSE4.1, 4 = AVX, 5 = AVX2
+    pub fn force(level: u8) {
+        FORCED.store(level, Ordering::SeqCst)
+    }
+    #[inline]
+    pub fn forced() -> u8 {
+        FORCED.load(Ordering::SeqCst)
+    }
+}
+
 #[derive(Copy, Clone)]
 pub struct SseMachine<S3, S4, NI>(PhantomData<(S3, S4, NI)>);
 impl<S3: Copy, S4: Copy, NI: Copy> Machine for SseMachine<S3, S4, NI>
@@ -283,6 +298,15 @@ macro_rules! dispatch {
                 fn_impl($crate::x86_64::SSE2::instance(), $($arg),*)
             }
             unsafe {
+                #[cfg(cryptocorrosion_verif)]
+                match $crate::x86_64::verif::forced() {
+                    1 => return impl_sse2($($arg),*),
+                    2 => return impl_ssse3($($arg),*),
+                    3 => return impl_sse41($($arg),*),
+                    4 => return impl_avx($($arg),*),
+                    5 => return impl_avx2($($arg),*),
+                    _ => {}
+                }
                 if is_x86_feature_detected!("avx2") {
                     impl_avx2($($arg),*)
                 } else if is_x86_feature_detected!("avx") {
@@ -347,6 +371,12 @@ macro_rules! dispatch_light128 {
                 fn_impl($crate::x86_64::SSE2::instance(), $($arg),*)
             }
             unsafe {
+                #[cfg(cryptocorrosion_verif)]
+                match $crate::x86_64::verif::forced() {
+                    1 | 2 | 3 => return impl_sse2($($arg),*),
+                    4 | 5 => return impl_avx($($arg),*),
+                    _ => {}
+                }
                 if is_x86_feature_detected!("avx") {
                     impl_avx($($arg),*)
                 } else if is_x86_feature_detected!("sse2") {
@@ -405,6 +435,12 @@ macro_rules! dispatch_light256 {
                 fn_impl($crate::x86_64::SSE2::instance(), $($arg),*)
             }
             unsafe {
+                #[cfg(cryptocorrosion_verif)]
+                match $crate::x86_64::verif::forced() {
+                    1 | 2 | 3 => return impl_sse2($($arg),*),
+                    4 | 5 => return impl_avx($($arg),*),
+                    _ => {}
+                }
                 if is_x86_feature_detected!("avx") {
                     impl_avx($($arg),*)
                 } else if is_x86_feature_detected!("sse2") {
